@@ -277,10 +277,11 @@ func readEntities(dir string) []entFile {
 		}
 		b, _ := ioutil.ReadFile(filepath.Join(dir, fi.Name()))
 		var e entFile
+		nm, _ := hex.DecodeString(strings.TrimSuffix(fi.Name(), ".entity"))
 		if err := json.Unmarshal(b, &e); err != nil {
-			nm, _ := hex.DecodeString(strings.TrimSuffix(fi.Name(), ".entity"))
 			e = entFile{Name: string(nm), bad: true}
 		}
+		e.Name = string(nm) // the file name carries the identifier byte for byte (the JSON does not, for bytes that are not UTF-8)
 		e.raw = b
 		out = append(out, e)
 	}
@@ -297,7 +298,14 @@ func snapshotDir(dir string) string {
 	return sb.String()
 }
 
-func ctlName(n int) string { return fmt.Sprintf("ctl%d", n) }
+// ctlName: some controller identifiers are not valid UTF-8 (a Latin-1 name): stored under the hex of their bytes, the
+// JSON inside the file carries U+FFFD (known finding F15) — they are pairings like any other
+func ctlName(n int) string {
+	if n%4 == 2 {
+		return fmt.Sprintf("ctl%d caf\xe9", n)
+	}
+	return fmt.Sprintf("ctl%d", n)
+}
 
 func ctlKey(code int) []byte {
 	b := make([]byte, 32)
@@ -482,6 +490,10 @@ func (x *rsExec) violate(sig string, step int, exp, got string) {
 
 func (x *rsExec) showName(n string) string {
 	if strings.HasPrefix(n, "ctl") {
+		var k int
+		if _, err := fmt.Sscanf(n, "ctl%d", &k); err == nil && n == ctlName(k) {
+			return fmt.Sprintf("c%d", k) // the model names controllers by number
+		}
 		return "c" + n[3:]
 	}
 	return fmt.Sprintf("I%d", internStr(n, &x.ids))
